@@ -16,7 +16,22 @@ func init() {
 	x := "x509/x509.go"
 	px := "x509/pkix/pkix.go"
 	se := "serialization.go"
-	register(genFile{name: "TbsFacts", units: []unit{
+	register(genFile{name: "TbsFacts", imports: []string{"CTV.Basic.I64"}, units: []unit{
+		// removeExtension: one iteration of the search loop; `none` = the function returns an error, `some extAt` = the new index.
+		{"removeExtension.step", loopBodyKernel(x, "removeExtension", "tbs.Extensions", "removeExtensionStep",
+			"(extAt i : Int) (idEqual : Bool)", "Option Int", "some extAt",
+			Spec{Ret: "errlast", Vars: map[string]string{"extAt": "extAt", "i": "i"}, Repl: map[string]string{"ext.Id.Equal(oid)": "idEqual"}})},
+		// … and what follows the loop: the error when nothing was found
+		{"removeExtension.absent", condKernel(x, "removeExtension", []string{"extAt == -1"}, "removeExtensionAbsent", "(extAt : Int)",
+			Spec{Vars: map[string]string{"extAt": "extAt"}})},
+		// BuildPrecertTBS: the authority-key-id update, as normalised source (pinned by C03.facts_as_modelled)
+		{"BuildPrecertTBS.keyAtLoop", rangeLoopSrc(x, "BuildPrecertTBS", "tbs.Extensions", "buildPrecertKeyAtLoop")},
+		{"BuildPrecertTBS.issuerKeyIDLoop", rangeLoopSrc(x, "BuildPrecertTBS", "preIssuer.Extensions", "buildPrecertIssuerKeyIDLoop")},
+		{"BuildPrecertTBS.akiConds", ifChainConds(x, "BuildPrecertTBS", "keyAt >= 0", "buildPrecertAkiConds")},
+		{"BuildPrecertTBS.extEdits", assignsTo(x, "BuildPrecertTBS", "tbs.Extensions", "buildPrecertExtEdits")},
+		{"BuildPrecertTBS.valueEdit", assignsTo(x, "BuildPrecertTBS", "tbs.Extensions[keyAt].Value", "buildPrecertValueEdit")},
+		{"BuildPrecertTBS.issuerEdit", assignsTo(x, "BuildPrecertTBS", "tbs.Issuer.FullBytes", "buildPrecertIssuerEdit")},
+		{"BuildPrecertTBS.appended", assignsTo(x, "BuildPrecertTBS", "authKeyIDExt", "buildPrecertAppended")},
 		{"oid.CTPoison", oidVar(x, "OIDExtensionCTPoison", "oidCTPoison")},
 		{"oid.CTSCT", oidVar(x, "OIDExtensionCTSCT", "oidCTSCT")},
 		{"oid.AuthorityKeyId", oidVar(x, "OIDExtensionAuthorityKeyId", "oidAuthorityKeyId")},
@@ -237,5 +252,61 @@ func ifPresent(rel, fn string, markers []string, leanName, doc string) func() st
 			v = "true"
 		}
 		return fmt.Sprintf("/-- generated from %s func %s: %s -/\ndef %s : Bool := %s\n", rel, fn, doc, leanName, v)
+	}
+}
+
+// rangeLoopSrc: the normalised source of the unique `for … range <marker>` loop of fn.
+func rangeLoopSrc(rel, fn, marker, leanName string) func() string {
+	return func() string {
+		fd := mustFunc(rel, fn)
+		var found []string
+		ast.Inspect(fd.Body, func(n ast.Node) bool {
+			if f, ok := n.(*ast.RangeStmt); ok && src(f.X) == marker {
+				found = append(found, src(f))
+			}
+			return true
+		})
+		if len(found) != 1 {
+			panic(bail{fmt.Sprintf("%s: expected exactly one range loop over %s in %s, found %d", rel, marker, fn, len(found))})
+		}
+		return fmt.Sprintf("/-- generated from %s func %s: the loop over `%s` -/\ndef %s : String := %s\n", rel, fn, marker, leanName, leanStr(found[0]))
+	}
+}
+
+// ifChainConds: for the unique `if` of fn whose condition is exactly first: its condition, the conditions of the `if`s directly
+// inside its body (each with the condition of its else-if, "else" for a plain else), and the conditions of its else-if chain.
+func ifChainConds(rel, fn, first, leanName string) func() string {
+	return func() string {
+		fd := mustFunc(rel, fn)
+		ss := findStmts(fd, func(s ast.Stmt) bool {
+			i, ok := s.(*ast.IfStmt)
+			return ok && src(i.Cond) == first
+		})
+		if len(ss) != 1 {
+			panic(bail{fmt.Sprintf("%s: expected exactly one `if %s` in %s, found %d", rel, first, fn, len(ss))})
+		}
+		var rows []string
+		var walk func(i *ast.IfStmt, prefix string)
+		walk = func(i *ast.IfStmt, prefix string) {
+			rows = append(rows, leanStr(prefix+"if "+src(i.Cond)))
+			for _, st := range i.Body.List {
+				if in, ok := st.(*ast.IfStmt); ok {
+					walk(in, prefix+"  ")
+				}
+			}
+			switch e := i.Else.(type) {
+			case *ast.IfStmt:
+				walk(e, prefix+"else ")
+			case *ast.BlockStmt:
+				rows = append(rows, leanStr(prefix+"else"))
+				for _, st := range e.List {
+					if in, ok := st.(*ast.IfStmt); ok {
+						walk(in, prefix+"  ")
+					}
+				}
+			}
+		}
+		walk(ss[0].(*ast.IfStmt), "")
+		return fmt.Sprintf("/-- generated from %s func %s: shape of the `if %s` statement -/\ndef %s : List String := [%s]\n", rel, fn, first, leanName, strings.Join(rows, ", "))
 	}
 }
